@@ -79,7 +79,8 @@ def _chain(draw):
 
 @st.composite
 def _refs(draw):
-    base = draw(progs.tables(min_rows=2, max_rows=6, ragged=False, extra=False, pad=False, blanks=False))
+    # (1 data row: the referenced run then collected exactly one line)
+    base = draw(progs.tables(min_rows=draw(st.sampled_from([1, 2, 2])), max_rows=6, ragged=False, extra=False, pad=False, blanks=False))
     cols = base["cols"]
     # sparse columns: make sure some cells are really empty (a header reference lists them as '')
     for r in base["records"][1:]:
@@ -95,7 +96,7 @@ def _refs(draw):
         t2 = copy.deepcopy(base)
         hdr = t2["records"][0]
         rows = []
-        for r in range(draw(st.integers(2, 6))):
+        for r in range(draw(st.sampled_from([1, 1, 2, 3, 4, 5, 6]))):
             row = [f"r{r}"]
             for c in cols[1:]:
                 row.append(draw(st.sampled_from(progs.POOL[c["type"]])))
